@@ -314,6 +314,10 @@ def run(ctx, rep):
         n1 = eviction_tables(ctx, rep, ins[0], True)
         n2 = eviction_tables(ctx, rep, drn[0], False)
         rep.floor("R15.6", "eviction sites (insert, drain_evictable)", n1 + n2, 2)
+    # the public drain entry: every return must have drained (a skipped drain - e.g. try_write on a busy lock - leaves evictable entries)
+    pub_drain = [k for k in ctx.prog.bodies if re.search(r"RaftLog::<T>::drain_cache_evictable$", k)]
+    if rep.expect("R15.4", "RaftLog::drain_cache_evictable", len(pub_drain) == 1):
+        eviction_tables(ctx, rep, pub_drain[0], False)
     r15_5(ctx, rep)
 
 
